@@ -23,6 +23,7 @@ type execExtra struct {
 	rangeKeys         map[*ssa.Range]string
 	havocAll          bool
 	curSitePos        token.Pos
+	missingAnchors    []string
 	stepStart         map[*SiteSpec]*State
 	keyFacts          []*Node
 	siteBindings      map[*SiteSpec]int
@@ -88,8 +89,16 @@ func (e *Exec) bindSites() {
 		if n == 0 && ruleSites[ss] {
 			continue // a rule simply does not apply where its target is not called
 		}
+		if n == 0 && len(ss.Assert) == 0 && len(ss.Assume) == 0 && ss.Step == "" && len(ss.Ghost) > 0 {
+			// a site that only records evidence in ghost variables: if the step it records is gone from
+			// the code, the evidence is simply never recorded (the ghost keeps its initial value) and the
+			// assertions that need it fail — a violation, not a missing anchor
+			continue
+		}
 		if n == 0 || (ss.Nth > n) {
-			panic(unsupportedErr{fmt.Sprintf("anchor-missing: site %q (%s %s) binds to nothing in %s", ss.Label, ss.Kind, ss.Target, e.funcKey)})
+			// the obligations of this site cannot be generated (reported as undecided); everything else
+			// in the function is still verified
+			e.missingAnchors = append(e.missingAnchors, fmt.Sprintf("anchor-missing: site %q (%s %s) binds to nothing in %s", ss.Label, ss.Kind, ss.Target, e.funcKey))
 		}
 	}
 }
@@ -110,6 +119,19 @@ func (e *Exec) siteMatches(ss *SiteSpec, ins ssa.Instruction) bool {
 		}
 		name := calleeName(c)
 		return name == ss.Target || shortFuncName(name) == ss.Target || strings.HasSuffix(name, "."+ss.Target) || strings.HasSuffix(name, ")."+ss.Target)
+	case "defer":
+		// a defer statement of a named function or of the k-th closure: `before defer lit#5`
+		d, ok := ins.(*ssa.Defer)
+		if !ok {
+			return false
+		}
+		if mc, ok := d.Call.Value.(*ssa.MakeClosure); ok {
+			return e.v.closureName(mc.Fn.(*ssa.Function)) == ss.Target
+		}
+		if f, ok := d.Call.Value.(*ssa.Function); ok {
+			return f.Name() == ss.Target || (f.Parent() != nil && e.v.closureName(f) == ss.Target)
+		}
+		return ss.Target == "*"
 	case "go":
 		g, ok := ins.(*ssa.Go)
 		if !ok {
@@ -357,7 +379,11 @@ func (e *Exec) libCall(s *State, ins ssa.Instruction, callee *ssa.Function, full
 	case "(*sync.Once).Do":
 		e.logAbs("sync.Once.Do: treated as maybe-call, body effects not applied to the caller's state under contract")
 		return nil, true
-	case "(*sync.WaitGroup).Add", "(*sync.WaitGroup).Done", "(*sync.WaitGroup).Wait", "(*sync.WaitGroup).Go":
+	case "(*sync.WaitGroup).Wait", "time.Sleep":
+		e.blockingUnderLock(s, ins.Pos(), shortFuncName(full))
+		e.logAbs("sync.WaitGroup / Sleep: no happens-before modelled")
+		return nil, true
+	case "(*sync.WaitGroup).Add", "(*sync.WaitGroup).Done", "(*sync.WaitGroup).Go":
 		e.logAbs("sync.WaitGroup: no happens-before modelled")
 		return nil, true
 	case "(*sync.Cond).Wait", "(*sync.Cond).Signal", "(*sync.Cond).Broadcast":
